@@ -86,14 +86,14 @@ def run(c, facts, tier):
                 ok = "round-up" not in txt and "( size )" in txt and toks[-2] == "{Size::byte_size($Comparison.0)}"
                 det = "bytes are compared unrounded: `%s`" % txt
             else:
-                ok = "( round-up-power-of-2 ( size ) {$Comparison.0.mult()} )" in txt and toks[-2] == "{Size::byte_size($Comparison.0)}"
+                ok = "( round-up-power-of-2 ( size ) {Size::mult($Comparison.0)} )" in txt and toks[-2] == "{Size::byte_size($Comparison.0)}"
                 det = "file size rounded up to the unit (mult()) and compared with count×unit (byte_size): `%s`" % txt
             c.ob("C02.units", T, key, ok, det, nontrivial=False)
         m = re.match(r"self∈Test::(AccessTime|ChangeTime|ModifyTime) ", key)
         if m:
             fld = {"AccessTime": "atime", "ChangeTime": "ctime", "ModifyTime": "mtime"}[m.group(1)]
             txt = " ".join(row["tokens"])
-            ok = ("( quotient ( - {SystemTime::now().duration_since(SystemTime::UNIX_EPOCH).unwrap().as_secs()} ( %s ) ) {$Comparison.0.secs()} ) {$TimeSpec.0} )" % fld) in txt
+            ok = ("( quotient ( - {SystemTime::now().duration_since(SystemTime::UNIX_EPOCH).unwrap().as_secs()} ( %s ) ) {TimeSpec::secs($Comparison.0)} ) {$TimeSpec.0} )" % fld) in txt
             c.ob("C02.units", T, key, ok, "age = quotient (now − %s) by the unit's seconds, compared with the bare count: `%s`" % (fld, txt), nontrivial=False)
     # the count read for time comparisons binds every TimeSpec variant
     # C02.type
@@ -133,7 +133,7 @@ def run(c, facts, tier):
                 for conds, v in mp["elems"]:
                     if v.get("v") == "str":
                         t = emit.scheme_tokens(emit.canon_parts(v["parts"]))
-                        ok_t = len(t) == 11 and t[:7] == ["(", "=", "(", "logand", "(", "mode", ")"] and t[7] == SIFMT and "octal().bits()" in t[9] and t[8] == ")" and t[10] == ")"
+                        ok_t = len(t) == 11 and t[:7] == ["(", "=", "(", "logand", "(", "mode", ")"] and t[7] == SIFMT and ("octal().bits()" in t[9] or ("FileType::octal(" in t[9] and t[9].rstrip("}").endswith(".bits()"))) and t[8] == ")" and t[10] == ")"
                         det = " ".join(t)
                 txt = " ".join(r["tokens"])
                 ok_j = r["tokens"][:2] == ["(", "or"] and joiner == " "
